@@ -896,6 +896,10 @@ int sx127x_tx_set_pa_config(sx127x_pa_pin_t pin, int power, sx127x *device) {
     } else {
       max_current = 20;
     }
+    // the protection cannot be trimmed below 45mA
+    if (max_current < 45) {
+      max_current = 45;
+    }
   }
   ERROR_CHECK(sx127x_tx_set_ocp(true, max_current, device));
   uint8_t value;
